@@ -318,6 +318,27 @@ func TestC17Band(t *testing.T) {
 		corpus = append(corpus, f.plan)
 	}
 
+	// check-flag reset during an outage: an asset is added while the oracle is silent; the first
+	// check after it sets the temp id to 0, so the second one takes the old acknowledged request
+	// for a new one and delivers its (already consumed) result once more
+	for _, n := range []uint64{1, 2} {
+		f := &feed{}
+		asset(f, true)
+		reg(f, 1, 7, n, 40)
+		round(f, nil)
+		round(f, []uint64{1000000})
+		round(f, []uint64{3000000})
+		round(f, nil)
+		round(f, nil)
+		asset(f, true)
+		round(f, nil)
+		round(f, nil)
+		round(f, nil)
+		round(f, []uint64{5000000, 7})
+		round(f, []uint64{6000000, 8})
+		corpus = append(corpus, f.plan)
+	}
+
 	alphabet := []uint64{1, 2, 7, 1000000, 1000001, 1 << 63, ^uint64(0), 1<<63 - 1, 1 << 62}
 	ci := 0
 	for _, plan := range corpus {
